@@ -258,18 +258,6 @@ Proof. intro m. simpl. f_equal. induction m as [|[k x] m IH]; [reflexivity|]. cb
 
 Definition anyl (f : value -> bool) (l : list value) : bool := existsb f l.
 
-Lemma has_bytes_list : forall l, has_bytes (VList l) = existsb has_bytes l.
-Proof. intros. reflexivity. Qed.
-Lemma has_bytes_set : forall l, has_bytes (VSet l) = existsb has_bytes l.
-Proof. intros. reflexivity. Qed.
-Lemma has_bytes_map : forall m, has_bytes (VMap m) = existsb (fun kv => has_bytes (snd kv)) m.
-Proof. intro m. simpl. induction m as [|[k x] m IH]; [reflexivity|]. cbn [forallb existsb snd]. rewrite <- IH. reflexivity. Qed.
-Lemma has_str_list : forall l, has_str (VList l) = existsb has_str l.
-Proof. intros. reflexivity. Qed.
-Lemma has_str_set : forall l, has_str (VSet l) = existsb has_str l.
-Proof. intros. reflexivity. Qed.
-Lemma has_str_map : forall m, has_str (VMap m) = existsb (fun kv => has_str (snd kv)) m.
-Proof. intro m. simpl. induction m as [|[k x] m IH]; [reflexivity|]. cbn [forallb existsb snd]. rewrite <- IH. reflexivity. Qed.
 Lemma has_float_list : forall l, has_float (VList l) = existsb has_float l.
 Proof. intros. reflexivity. Qed.
 Lemma has_float_set : forall l, has_float (VSet l) = existsb has_float l.
@@ -309,7 +297,7 @@ Lemma equals_unfold : forall a b,
       | VFloat n m => feq_if x n m
       | _ => false
       end
-  | VStr s => match b with VStr t => bytes_eqb s t | _ => false end
+  | VStr s => match b with VStr t => bytes_eqb s t | VBytes t => bytes_eqb s t | _ => false end
   | VBytes s =>
       match b with
       | VBytes t => match bytes_cmp s t with Eq => true | _ => false end
@@ -351,7 +339,7 @@ Lemma vcompare_unfold : forall a b,
       | VByte y => Some (x ?= y)
       | _ => None
       end
-  | VStr s => match b with VStr t => Some (bytes_cmp s t) | _ => None end
+  | VStr s => match b with VStr t => Some (bytes_cmp s t) | VBytes t => Some (bytes_cmp s t) | _ => None end
   | VBytes s =>
       match b with
       | VBytes t => Some (bytes_cmp s t)
@@ -764,7 +752,7 @@ Proof.
     rewrite hkey_eqb_sym in E'. eapply hkey_equals; eauto.
 Qed.
 
-(* ================================================================ == is symmetric outside the byte_slice/string class *)
+(* ================================================================ == is symmetric *)
 
 Lemma keys_nodup_NoDup : forall ks, keys_nodup ks = true -> NoDup ks.
 Proof.
@@ -861,16 +849,19 @@ Proof.
   assert (existsb f l = true) by (apply existsb_exists; eauto). congruence.
 Qed.
 
-Lemma guard_down : forall (pa pb : bool) (qa qb : bool),
-  pa && pb = false -> (qa = true -> pa = true) -> (qb = true -> pb = true) -> qa && qb = false.
-Proof. intros [] [] [] []; simpl; intros; auto; try discriminate; try (symmetry; auto). Qed.
+Lemma bytes_eqb_cmp : forall s t, bytes_eqb s t = match bytes_cmp t s with Eq => true | _ => false end.
+Proof.
+  intros s t. destruct (bytes_cmp t s) eqn:C.
+  - apply bytes_cmp_eq in C. subst. apply bytes_eqb_refl.
+  - apply bytes_eqb_neq. intro E. subst. rewrite bytes_cmp_refl in C. discriminate.
+  - apply bytes_eqb_neq. intro E. subst. rewrite bytes_cmp_refl in C. discriminate.
+Qed.
 
 Lemma equals_sym : forall a b,
   no_nan a = true -> no_nan b = true -> wf a = true -> wf b = true ->
-  has_bytes a && has_str b = false -> has_str a && has_bytes b = false ->
   equals a b = equals b a.
 Proof.
-  induction a using value_ind2; intros b' Na Nb Wa Wb G1 G2; destruct b';
+  induction a using value_ind2; intros b' Na Nb Wa Wb; destruct b';
     rewrite !equals_unfold; simpl;
     try solve [ reflexivity | discriminate
               | destruct b, b0; reflexivity
@@ -878,6 +869,8 @@ Proof.
               | apply feq_sym
               | unfold feq_if, feq_fi; match goal with |- context[of_int ?z] => destruct (of_int z) end; apply feq_sym
               | apply bytes_eqb_sym
+              | apply bytes_eqb_cmp
+              | symmetry; apply bytes_eqb_cmp
               | match goal with |- context[bytes_cmp ?x ?y] =>
                   rewrite (bytes_cmp_antisym x y); destruct (bytes_cmp x y); reflexivity end
               | rewrite bytes_eqb_sym; destruct r, raised; reflexivity ].
@@ -885,21 +878,16 @@ Proof.
     rewrite Nat.eqb_sym. f_equal. apply leq_sym_of. intros x y Ix Iy.
     rewrite Forall_forall in H.
     rewrite no_nan_list in Na, Nb. rewrite wf_list in Wa, Wb. rewrite forallb_forall in Na, Nb, Wa, Wb.
-    rewrite has_bytes_list, has_str_list in G1, G2.
     apply H; auto.
-    + eapply guard_down; [exact G1| |]; intro; eapply existsb_in; eauto.
-    + eapply guard_down; [exact G2| |]; intro; eapply existsb_in; eauto.
   - (* maps *)
     rewrite Nat.eqb_sym. destruct (Nat.eqb (length m0) (length m)) eqn:L; [|reflexivity]. simpl.
     apply Nat.eqb_eq in L.
     rewrite wf_map in Wa, Wb. apply andb_true_iff in Wa, Wb. destruct Wa as [Wa1 Wa2]. destruct Wb as [Wb1 Wb2].
     rewrite no_nan_map in Na, Nb. rewrite forallb_forall in Na, Nb, Wa2, Wb2.
-    rewrite has_bytes_map, has_str_map in G1, G2. rewrite Forall_forall in H.
+    rewrite Forall_forall in H.
     assert (S : forall k v v', In (k, v) m -> In (k, v') m0 -> equals v v' = equals v' v).
     { intros k v v' I I'. apply (H (k, v) I).
-      - apply (Na _ I). - apply (Nb _ I'). - apply (Wa2 _ I). - apply (Wb2 _ I').
-      - eapply guard_down; [exact G1| |]; intro Q; apply existsb_exists; [exists (k, v) | exists (k, v')]; auto.
-      - eapply guard_down; [exact G2| |]; intro Q; apply existsb_exists; [exists (k, v) | exists (k, v')]; auto. }
+      - apply (Na _ I). - apply (Nb _ I'). - apply (Wa2 _ I). - apply (Wb2 _ I'). }
     apply bool_eq_of_imp; intro F.
     + apply (map_incl_sym m m0); auto.
     + apply (map_incl_sym m0 m); auto. intros k v v' I I'. symmetry. apply (S k v' v); auto.
@@ -958,7 +946,7 @@ Proof.
            end;
     repeat match goal with H : bytes_cmp _ _ = Eq |- _ => apply bytes_cmp_eq in H end;
     repeat match goal with H : bytes_eqb _ _ = true |- _ => apply bytes_eqb_eq in H end;
-    subst; rewrite bytes_cmp_refl; reflexivity ].
+    subst; first [ apply bytes_eqb_refl | rewrite bytes_cmp_refl; reflexivity ] ].
   - (* errors *)
     apply andb_true_iff in E1, E2. destruct E1 as [A1 B1]. destruct E2 as [A2 B2].
     apply bytes_eqb_eq in A1. apply bytes_eqb_eq in A2. apply Bool.eqb_prop in B1. apply Bool.eqb_prop in B2.
@@ -1104,10 +1092,10 @@ Qed.
 Lemma contains_list : forall l x, contains (VList l) x = Some (existsb (fun v => equals v x) l).
 Proof. reflexivity. Qed.
 
-Lemma contains_map : forall m x,
+Lemma contains_map : forall m x, is_bytes x = false ->
   contains (VMap m) x = Some (existsb (fun kv => equals (VStr (fst kv)) x) m).
 Proof.
-  intros m x. simpl. f_equal. destruct x;
+  intros m x Hb. simpl. f_equal. destruct x; try discriminate;
     try (symmetry; induction m as [|[k v] m IH]; simpl; auto; rewrite equals_unfold; simpl; exact IH).
   induction m as [|[k v] m IH]; simpl; auto.
   rewrite equals_unfold. simpl. destruct (bytes_eqb k s); simpl; auto.
@@ -1122,7 +1110,7 @@ Qed.
 
 Lemma equals_other_type : forall v x k,
   hashkey v = Some k -> tag_eqb (tag_of v) (tag_of x) = false ->
-  (numeric v && numeric x) || (is_bytes v && is_str x) = false -> equals v x = false.
+  (numeric v && numeric x) || (is_bytes v && is_str x) || (is_str v && is_bytes x) = false -> equals v x = false.
 Proof.
   intros v x k Hk T G. destruct v; simpl in Hk; try discriminate; destruct x; simpl in T, G; try discriminate;
     rewrite equals_unfold; reflexivity.
@@ -1552,14 +1540,6 @@ Proof.
   destruct a; try discriminate; destruct b; try discriminate; destruct c; try discriminate; reflexivity.
 Qed.
 
-Lemma equals_sym_guarded : forall a b,
-  no_nan a = true -> no_nan b = true -> wf a = true -> wf b = true -> sym_guard a b = true ->
-  equals a b = equals b a.
-Proof.
-  intros a b Na Nb Wa Wb G. unfold sym_guard in G. apply andb_true_iff in G. destruct G as [G1 G2].
-  apply negb_true_iff in G1, G2. apply equals_sym; auto.
-Qed.
-
 Lemma neq_negation : forall a b, cmp_op ONe a b = option_map negb (cmp_op OEq a b).
 Proof. reflexivity. Qed.
 
@@ -1570,3 +1550,23 @@ Proof.
   intros s a b ka kb T Ha Hb Na Nb E. apply set_add_length_same_key. rewrite Ha, Hb. simpl.
   apply (set_slot a b ka kb T Ha Hb Na Nb). exact E.
 Qed.
+
+(* ================================================================ strings and byte_slices order together *)
+
+Definition is_text (v : value) : bool := is_str v || is_bytes v.
+
+Lemma text_laws : forall a b c, is_text a = true -> is_text b = true -> is_text c = true -> cmp_laws a b c.
+Proof.
+  intros a b c Ha Hb Hc.
+  destruct a; try discriminate; destruct b; try discriminate; destruct c; try discriminate;
+    unfold cmp_laws; rewrite !vcompare_unfold, equals_unfold; simpl; (repeat split; eauto);
+    try (rewrite bytes_cmp_antisym; reflexivity);
+    try (intros x y r H1 H2 H3; inversion H1; inversion H2; subst; f_equal; eapply bytes_cmp_trans; exact H3);
+    try (intro H; inversion H as [H1]; apply bytes_cmp_eq in H1; subst; apply bytes_eqb_refl);
+    try (intro H; apply bytes_eqb_eq in H; subst; rewrite bytes_cmp_refl; reflexivity);
+    try (intro H; inversion H as [H1]; rewrite H1; reflexivity);
+    try (intro H; match goal with |- Some (bytes_cmp ?x ?y) = _ => destruct (bytes_cmp x y); try discriminate; reflexivity end).
+Qed.
+
+Lemma text_total_preorder : total_preorder_on (fun v => is_text v = true).
+Proof. intros a b c. apply text_laws. Qed.
